@@ -48,6 +48,10 @@ class SourceModule(Object):
         self._analysing = True
         try:
             return self.scope.exported_names  # type: ignore[return-value]
+        except SyntaxError:
+            # a module that does not parse has no names to offer; the error
+            # belongs to that file, not to the one being edited
+            return {}
         finally:
             self._analysing = False
 
